@@ -426,6 +426,16 @@ func (c *Channel) FinishMessage(clientID int64, id MessageID) error {
 //
 //	and requeue a message (aka "deferred requeue")
 func (c *Channel) RequeueMessage(clientID int64, id MessageID, timeout time.Duration) error {
+	// hold the exit lock from before the message leaves the in-flight set until it
+	// is queued (or deferred) again: a channel that starts closing in between would
+	// flush neither the in-flight set (already popped) nor the queue (not yet put)
+	c.exitMutex.RLock()
+	defer c.exitMutex.RUnlock()
+	if c.Exiting() {
+		// still in flight: Close() persists it
+		return errors.New("exiting")
+	}
+
 	// remove from inflight first
 	msg, err := c.popInFlightMessage(clientID, id)
 	if err != nil {
@@ -435,14 +445,7 @@ func (c *Channel) RequeueMessage(clientID int64, id MessageID, timeout time.Dura
 	atomic.AddUint64(&c.requeueCount, 1)
 
 	if timeout == 0 {
-		c.exitMutex.RLock()
-		if c.Exiting() {
-			c.exitMutex.RUnlock()
-			return errors.New("exiting")
-		}
-		err := c.put(msg)
-		c.exitMutex.RUnlock()
-		return err
+		return c.put(msg)
 	}
 
 	// deferred requeue
